@@ -445,6 +445,8 @@ struct ExecObs {
     probe_slot: Option<(u64, u64, u64)>,
     probe_stack: Option<(u64, u64)>,
     helper_log: Vec<(u8, [u64; 5])>,
+    /// something was written behind a byte buffer the VM allocated for itself: (size, position)
+    overflow: Option<(usize, usize)>,
 }
 
 impl<'s> Runner<'s> {
@@ -572,10 +574,11 @@ impl<'s> Runner<'s> {
             t.probe_stack = None;
         });
         let outcome = vm.exec(engine, pb, mbb);
+        let overflow = guard::check_canaries();
         let (probe_r1, probe_slot, probe_stack, helper_log) = tls(|t| (t.probe_r1.take(), t.probe_slot.take(), t.probe_stack.take(), std::mem::take(&mut t.helper_log)));
         let pkt_after = if self.sc.kind.has_packet() { self.arena.packets[pkt].clone() } else { Vec::new() };
         let mb_after = if self.sc.kind == Kind::Mbuff { self.arena.mbuffs[mb].clone() } else { Vec::new() };
-        ExecObs { outcome, pkt_after, mb_after, probe_r1, probe_slot, probe_stack, helper_log }
+        ExecObs { outcome, pkt_after, mb_after, probe_r1, probe_slot, probe_stack, helper_log, overflow }
     }
 
     fn restore_buffers(&mut self, pkt: usize, mb: usize) {
@@ -603,6 +606,14 @@ impl<'s> Runner<'s> {
         let obs = self.observe(&mut vm, engine, pkt, mb);
         drop(vm);
         self.restore_buffers(pkt, mb);
+        if let Some((size, pos)) = obs.overflow {
+            self.counters.inc("private_buffer_overflow_seen");
+            let detail = format!("fresh VM: executing {} under {} wrote at byte {} of the VM's own {}-byte metadata buffer (data offset {}, end offset {})", self.sc.progs[pid].class.name(), engine.name(), pos, size, offsets.0, offsets.1);
+            if let Some(stop) = self.c09(format!("fixed-buffer-overflow/{}", engine.name()), at, detail.clone()) {
+                return Err(stop);
+            }
+            return Err(Stop::Abort(detail));
+        }
         if let Some(stop) = self.c09_check(pid, engine, pkt, mb, &obs, at, true) {
             return Err(stop);
         }
@@ -633,6 +644,31 @@ impl<'s> Runner<'s> {
             Outcome::Ok(v) => Some(*v),
             _ => None,
         };
+        // A fresh VM that cannot execute a context probe at all (on buffers the probe is made for)
+        // does not present the documented context either. An unregistered probe helper is the
+        // history's business, not the VM's.
+        if fresh && matches!(prog.class, Class::ProbeR1 | Class::ProbeSlotData | Class::ProbeSlotLen | Class::ProbeStack) {
+            let what = match &obs.outcome {
+                Outcome::Err(e) if !e.contains("unknown helper") => Some(format!("returned an error: {}", e.lines().next().unwrap_or(""))),
+                Outcome::Panic(p) => Some(format!("panicked: {}", p)),
+                Outcome::Signal(s) if prog.class != Class::ProbeStack => Some(format!("died with signal {}", s)),
+                _ => None,
+            };
+            if let Some(what) = what {
+                if !(prog.class == Class::ProbeStack && what.contains("out of bounds")) {
+                    let class = match prog.class {
+                        Class::ProbeR1 => format!("r1-context/{}/{}", kind.name(), engine.name()),
+                        Class::ProbeStack => format!("stack-top/{}", engine.name()),
+                        _ => format!("fixed-slot-wrong/{}", engine.name()),
+                    };
+                    let cfg = match prog.offsets {
+                        Some((d, e)) => format!(" (data offset {}, end offset {})", d, e),
+                        None => String::new(),
+                    };
+                    return self.c09(class, at, format!("fresh VM: the {} probe{} on packet #{} (len {}) {}", prog.class.name(), cfg, pkt, plen, what));
+                }
+            }
+        }
         match prog.class {
             Class::ProbeR1 => {
                 let expected = match kind {
@@ -839,6 +875,10 @@ impl<'s> Runner<'s> {
         self.restore_buffers(pkt, mb);
         self.log_obs(tag, engine, Some(pid), &obs);
         self.t(|| format!("    {}({}, pkt#{}, mb#{}) -> {}   [expected {}]", tag, engine.name(), pkt, mb, obs.outcome.short(), refs.iter().map(|r| r.1.outcome.short()).collect::<Vec<_>>().join(" or ")));
+        if let Some((size, pos)) = obs.overflow {
+            self.counters.inc("private_buffer_overflow_seen");
+            return Err(self.c10(cls(format!("history-dependent-panic-or-crash/execute-{}", engine.name())), at, format!("history VM: {} wrote at byte {} of the VM's own {}-byte metadata buffer; a fresh VM with the loaded program does not", engine.name(), pos, size)));
+        }
         // C09's absolute expectations apply to the history VM's execution whatever the fresh VM
         // says (a context that is only wrong after a particular history is still a wrong context);
         // the probe channels carry the program's tag, so a stale program is never judged here.
@@ -998,6 +1038,17 @@ impl<'s> Runner<'s> {
             }
         }
         Ok(())
+    }
+
+    /// C10 does not promise that a *compile* call that fails keeps the code compiled earlier: after
+    /// a failed compile the compiled entry point may report "not compiled" or still run the (same)
+    /// loaded program, never anything else.
+    fn mark_compiled_uncertain(&mut self, engine: Engine) {
+        let mm = self.model.as_mut().unwrap();
+        let c = if engine == Engine::Jit { mm.jit.as_mut() } else { mm.cl.as_mut() };
+        if let Some(c) = c {
+            c.current = false;
+        }
     }
 
     fn do_op(&mut self, at: usize, op: &Op) -> Step<()> {
@@ -1278,6 +1329,7 @@ impl<'s> Runner<'s> {
                         return Err(self.c10(format!("fault-not-reported/{}", opname), at, format!("the code-page allocation failed but {} returned {}", opname, o.short())));
                     }
                     self.counters.inc("jit_compile_failed_by_fault");
+                    self.mark_compiled_uncertain(engine);
                     self.note_state(op, 1);
                     self.last_fail_then_exec = true;
                     return self.sweep(at, Some(opname));
@@ -1302,6 +1354,7 @@ impl<'s> Runner<'s> {
                     Ok(())
                 } else {
                     self.counters.inc(if engine == Engine::Jit { "jit_compile_refused" } else { "cranelift_compile_refused" });
+                    self.mark_compiled_uncertain(engine);
                     self.note_state(op, o.code());
                     if o.is_err() {
                         self.last_fail_then_exec = true;
